@@ -233,6 +233,12 @@ var ruleKleene = &Rule{
 					continue
 				}
 				n, probs := checkUnaryConnective(p, tx, rows, opAtom, constOfC(c), name, bd, k)
+				if h := delegatedArm(tx, rows, opAtom, constOfC(c)); h != nil && p.pairKind(h.Signature) == "pred" {
+					// the arm hands the whole job to a function of its own
+					// (`return exec.executeExistsItem(ctx, node, value)`): its table is the arm's
+					tx2, rows2 := p.extractTable(h, nil, &TableCfg{})
+					n, probs = checkUnaryConnective(p, tx2, rows2, "", 0, name, bd, k)
+				}
 				ncells += n
 				key := "truth table of " + name
 				if len(probs) == 0 && n > 0 {
@@ -251,6 +257,46 @@ var ruleKleene = &Rule{
 }
 
 func constOfC(c *types.Const) int64 { return constOf(c) }
+
+// delegatedArm: every path taken for operator op returns, whole, the two
+// results of one call to a module function; that function.
+func delegatedArm(tx *tableEx, rows []*PathRow, opAtom string, op int64) *ssa.Function {
+	var h *ssa.Function
+	n := 0
+	for _, r := range rows {
+		if r.Loop != nil || len(r.Out) != 2 {
+			continue
+		}
+		names := tx.atomsOf(guardTerms(r)...)
+		feasible := false
+		for _, as := range tx.assignments(names, Assign{opAtom: op}) {
+			if ok, _ := tx.satisfied(r, as); ok {
+				feasible = true
+				break
+			}
+		}
+		if !feasible {
+			continue
+		}
+		n++
+		if r.Out[0].Kind != "atom" || r.Out[1].Kind != "atom" {
+			return nil
+		}
+		a0, a1 := tx.atoms[r.Out[0].Atom], tx.atoms[r.Out[1].Atom]
+		if a0 == nil || a1 == nil || a0.Call == nil || a0.Call != a1.Call || a0.Index != 0 || a1.Index != 1 {
+			return nil
+		}
+		f := a0.Call.Call.StaticCallee()
+		if f == nil || !inModule(f) || (h != nil && h != f) {
+			return nil
+		}
+		h = f
+	}
+	if n == 0 {
+		return nil
+	}
+	return h
+}
 
 // coherent: err set ⇒ outcome unknown (established by R-PAIR-P for the callee).
 func coherent(as Assign, r, e string, U int64) bool {
